@@ -689,10 +689,10 @@ type ResponseFetchV11 struct {
 }
 
 type FetchResponseV11 struct {
-	ThrottleTimeMs int32             `json:"throttleTimeMs"`
-	ErrorCode      int16             `json:"errorCode"`
-	SessionId      int32             `json:"sessionId"`
-	Responses      []ResponseFetchV5 `json:"responses"`
+	ThrottleTimeMs int32              `json:"throttleTimeMs"`
+	ErrorCode      int16              `json:"errorCode"`
+	SessionId      int32              `json:"sessionId"`
+	Responses      []ResponseFetchV11 `json:"responses"`
 }
 
 // ListOffsets Request (Version: 0)
